@@ -546,17 +546,17 @@ def case_mvn_batch_sample(case, res):
 def gen_cases(tier, seed):
     q = tier == "quick"
     cases = []
-    for i in range(6 if q else 60):
+    for i in range(6 if q else 200):
         cases.append({"kind": "mvnb", "idx": i, "seed": seed, "x64": True, "n": 20000, "cost": 2})
-    for i in range(20 if q else 200):
+    for i in range(20 if q else 800):
         cases.append({"kind": "copb", "idx": i, "seed": seed, "x64": bool((i // 5) % 2), "cost": 1})
-    for i in range(160 if q else 3000):
+    for i in range(160 if q else 12000):
         cases.append({"kind": "mvn", "idx": i, "seed": seed, "x64": bool(i % 2), "cost": 2})
-    for i in range(24 if q else 300):
+    for i in range(24 if q else 1200):
         cases.append({"kind": "mvns", "idx": i, "seed": seed, "x64": bool(i % 2), "n": 40000, "cost": 3})
-    for i in range(8 if q else 60):
+    for i in range(8 if q else 200):
         cases.append({"kind": "bij", "idx": i, "seed": seed, "x64": bool(i % 2), "cost": 1})
-    for i in range(88 if q else 1200):
+    for i in range(88 if q else 4800):
         cases.append({"kind": "cop", "idx": i, "seed": seed, "x64": bool((i // 11) % 2), "n": 20000,
                       "sample": (i % 3 == 0), "cost": 2})
     return cases
